@@ -39,15 +39,16 @@ LEVEL_TEXT = ("Partial machine-checked proof. Proved for all inputs (Props/C03.l
               "(b) int2alphaCount, ScalarToDecimalString (also: it returns exactly the decimal numeral), the sprintf path of NumberToDOMString/"
               "NumberToCharacters for every finite double (with a two-sided theorem on the regenerated buffer size: <322 bytes overflow, >=347 safe) and the "
               "three length-guarded stack arrays never store outside their arrays and their loops terminate (64-bit inputs, sizes re-read from the source). "
-              "Counterexample proved and replayed: std::bad_alloc / Xerces OutOfMemoryException / DOMException / std::out_of_range pass through every chain "
-              "(known finding). The memory-safety/UB/leak/hang part of the property for the rest of the C++ is searched, not proved: malformed and "
-              "adversarial inputs through every entry point (sanitizer build in the thorough tier) with a follow-up transformation.")
+              "Full strength for the error mapping: each chain ends in catch(...) with non-zero statuses, so whatever is thrown the method returns a status "
+              "(every_exception_caught), with a non-empty message for std::bad_alloc / Xerces OutOfMemoryException / DOMException / std::exception. The memory-safety/UB/leak/hang part of the property for the rest of the C++ is searched, not proved: malformed and "
+              "adversarial inputs through every entry point (sanitizer build in the thorough tier) with a follow-up transformation, re-use of one compiled "
+              "stylesheet after an aborted run, more decimal-formats than the formatter cache holds, and a template-recursion depth ramp incl. recursion without end.")
 LEVEL_NOTE = ("Trusted: Lean kernel; axioms propext/Classical.choice/Quot.sound only; translate/c03_exceptions.py and translate/c03_buffers.py (regex "
               "readers of the C++ source and of the Xerces headers); the hand transcription of int2alphaCount/ScalarToDecimalString/number-path selection "
               "(validated by the correspondence run); glibc sprintf length = sign+digits+1+precision (assumption, validated on the generated doubles). "
               "NOT proved, only searched with sanitizers and bounded by generator coverage: memory safety, undefined behaviour, leaks and termination of all "
               "other code (XPath parser, stylesheet builder, serializers, source tree); Stylesheet::findTemplate conflictsArray; thread interleavings. "
-              "Non-terminating stylesheets (unbounded template recursion) are not generated.")
+              "Unbounded template recursion is tested by three fixed stylesheets (must end in a reported error); the mutation generator does not create new ones.")
 DESIGN_REF = "DESIGN.md section 5, C03; design/C03.md"
 
 P = "XalanModel.Props.C03."
@@ -57,7 +58,8 @@ THEOREMS = [P + n for n in (
     "every_library_exception_caught",
     "reported_error_partial",
     "empty_message_counterexample",
-    "foreign_exceptions_escape_counterexample",
+    "every_exception_caught",
+    "foreign_exceptions_reported",
     "thrown_foreign_classes_pinned",
     "no_dead_handler",
     "capi_reaches_only_protected_methods",
@@ -352,7 +354,7 @@ def run(ctx):
         "glibc sprintf(\"%.Nf\") stores sign+integer digits+1+N characters + NUL (model parameter; validated on the generated doubles)",
         "modelled, not verified: everything outside the generated tables and the three transcribed loops — reached only by the sanitizer-backed search",
     ]
-    ctx.assumptions += ["stylesheets with unbounded template recursion (non-terminating programs) are outside the generated inputs"]
+    ctx.assumptions += ["the mutation generator does not turn bounded template recursion into unbounded recursion (three fixed unbounded stylesheets are tested separately; a hang on a mutated stylesheet that still contains apply-templates/call-template is counted as inconclusive)"]
     flavor = "asan" if ctx.thorough else "hooks"
     ctx.build("hooks")
     if ctx.thorough:
@@ -626,6 +628,100 @@ def run(ctx):
         else:
             line = "xe %s %s" % (hx(eb), hx(src))
         cases.append(("xpath", line, {"kind": "xpath", "sty": eb, "src": src, "params": []}))
+
+    # ---------------------------------------------------------------- 5a. the SAME compiled stylesheet after a failure; > 10 decimal-formats; recursion
+    def pspec(ps):
+        return ",".join("%s=%s" % (hx(a), hx(b)) for a, b in ps) if ps else "-"
+    rlines, rmeta = [], []
+    for _ in range(150 if not ctx.thorough else 1200):
+        sb, src, A, B = c03_gen.gen_reuse_case(r)
+        rlines.append("xs %s %s %s %s" % (hx(sb), hx(src), pspec(A), pspec(B)))
+        rmeta.append(("reuse", sb, A, B))
+    for _ in range(20 if not ctx.thorough else 200):
+        sb, src = c03_gen.gen_decfmt_case(r)
+        rlines.append("xr %s %s" % (hx(sb), hx(src)))
+        rmeta.append(("decfmt", sb, None, None))
+    for nm, e in (("dollar", "$"), ("undefined", "$undefined"), ("self", "$p"), ("junk", "$ + 1"), ("digit", "$1")):
+        # a variable reference in a top-level parameter expression (no stack frame exists yet while these are resolved)
+        rlines.append("cp %s %s %s %s" % (hx("p"), hx(e), hx(c03_gen.BASES[3][0]), hx(c03_gen.SOURCES[1])))
+        rmeta.append(("param-varref:" + nm, e.encode(), None, None))
+    rres, rextras = run_parallel(runner, "xslt", rlines, nproc, "reuse")
+    for (kind, sb, A, B), (rep, prob), line in zip(rmeta, rres, rlines):
+        if prob:
+            ctx.case(nontrivial_key=line[:4000], cls=kind + ":" + prob["kind"])
+            cl = classify(prob["kind"], sb if kind != "param-varref" else b"", b"", [], prob["detail"])
+            ctx.fail("%s.%s[%s]: %s" % (kind.split(":")[0], prob["kind"], cl if cl != "unclassified" else kind, line[:100]),
+                     "%s on a %s request: %s" % (prob["kind"], kind, prob["detail"]), {"mode": "xslt", "line": line})
+            continue
+        d = parse_reply(rep or "")
+        rc = int(d.get("rc", "-99"))
+        ctx.case(nontrivial_key=line[:4000] if (d.get("cmp", "1") == "1") else None, cls="%s:rc=%d,rc2=%s" % (kind.split(":")[0], rc, d.get("rc2", "-")),
+                 sample=line[:400] if kind == "reuse" and len(ctx.samples) < 7 else None)
+        if d.get("esc", "none") != "none":
+            ctx.fail("%s.escapes[%s]" % (kind, d["esc"]), "exception %s left the entry point" % d["esc"], {"mode": "xslt", "line": line})
+            if d.get("fu") != "1":
+                ctx.fail("%s.unusable-after" % kind, "follow-up known-good transformation failed after: " + (rep or "")[:300], {"mode": "xslt", "line": line})
+            continue      # status / message / second run were not reached
+        if d.get("fu") != "1":
+            ctx.fail("%s.unusable-after" % kind, "follow-up known-good transformation failed after: " + (rep or "")[:300], {"mode": "xslt", "line": line})
+        if rc != 0 and int(d.get("msg", "0")) == 0:
+            ctx.fail("%s.empty-message: rc=%d" % (kind, rc), "non-zero status with an empty message: " + (rep or "")[:300], {"mode": "xslt", "line": line})
+        if kind in ("reuse", "decfmt") and d.get("ref") != "1":
+            what = ("the second transformation with the same compiled stylesheet on the same transformer differs from a fresh transformer"
+                    if kind == "reuse" else "a transformer with a history formats numbers differently from a fresh one (more decimal-formats than the cache holds)")
+            ctx.fail("%s.differs-from-fresh: rc2=%s refrc=%s" % (kind, d.get("rc2", d.get("rc")), d.get("refrc", "?")), what + ": " + (rep or "")[:600],
+                     {"mode": "xslt", "line": line})
+        if kind == "decfmt" and rc != 0:
+            ctx.extra.setdefault("decfmt_invalid", []).append((rep or "")[:400])
+    ctx.oblige("generated decimal-format stylesheets (> 10 symbol sets each) are accepted by the processor", "correspondence",
+               not ctx.extra.get("decfmt_invalid"), str(ctx.extra.get("decfmt_invalid", [])[:2]))
+    for pr in rextras:
+        a, b = pr["range"]
+        if pr["kind"] == "leak" and "xalanc" not in pr["detail"] and "Xalan" not in pr["detail"]:
+            ctx.extra.setdefault("external_leaks", []).append(pr["detail"][:300])
+            continue
+        culprit = bisect_report(runner, "xslt", rlines[a:b])
+        if culprit is not None:
+            k = a + culprit
+            cl = classify(pr["kind"], rmeta[k][1], b"", [], pr["detail"])
+            ctx.fail("%s.%s[%s]: %s" % (rmeta[k][0].split(":")[0], pr["kind"], cl, rlines[k][:100]), "%s: %s" % (pr["kind"], pr["detail"]), {"mode": "xslt", "line": rlines[k]})
+        else:
+            ctx.oblige("harness batch exits cleanly (reuse stream, lines %d..%d)" % (a, b), "correspondence", False, pr["detail"])
+
+    # template recursion: a depth ramp of terminating recursion, and recursion without an end (must end in a reported error)
+    depths = [10, 1000, 20000] if not ctx.thorough else [10, 100, 1000, 10000, 50000, 90000]
+    reclines, recmeta = [], []
+    for kind in ("call", "apply", "call-element"):
+        for dp in depths:
+            if kind == "call-element" and dp > 20000:
+                continue
+            reclines.append("xf %s %s %s=%s" % (hx(c03_gen.recursion_stylesheet(kind)), hx("<r/>"), hx("n"), hx(str(dp))))
+            recmeta.append((kind, dp))
+    recres, _ = run_parallel(runner, "xslt", reclines, min(nproc, len(reclines)), "rec")
+    for (kind, dp), (rep, prob), line in zip(recmeta, recres, reclines):
+        ctx.case(nontrivial_key="recursion %s %d" % (kind, dp), cls="recursion:bounded")
+        if prob:
+            ctx.fail("recursion.%s[bounded-%s]: depth %d" % (prob["kind"], kind, dp), "terminating template recursion of depth %d (%s): %s" % (dp, kind, prob["detail"]),
+                     {"mode": "xslt", "line": line})
+            continue
+        d = parse_reply(rep or "")
+        out = bytes.fromhex(d["out"]).decode("utf-8", "replace") if d.get("out", "-") != "-" else ""
+        if d.get("rc") != "0" or d.get("fu") != "1" or (kind != "call-element" and out != "done"):
+            ctx.fail("recursion.wrong-result[bounded-%s]: depth %d" % (kind, dp), "terminating recursion of depth %d did not produce its result: %s" % (dp, (rep or "")[:300]),
+                     {"mode": "xslt", "line": line})
+    inf_runner = Runner(harness, env, case_timeout=(400 if ctx.thorough else 90))
+    inflines = ["xf %s %s" % (hx(c03_gen.recursion_stylesheet(k)), hx("<r><i/></r>")) for k in ("infinite-call", "infinite-apply", "infinite-mutual")]
+    infres, _ = run_parallel(inf_runner, "xslt", inflines, 3, "inf")
+    for k, (rep, prob), line in zip(("infinite-call", "infinite-apply", "infinite-mutual"), infres, inflines):
+        ctx.case(nontrivial_key="recursion " + k, cls="recursion:unbounded")
+        if prob:
+            ctx.fail("recursion.%s[%s]" % (prob["kind"], k), "template recursion without an end must end in a reported error; instead: %s" % prob["detail"],
+                     {"mode": "xslt", "line": line})
+            continue
+        d = parse_reply(rep or "")
+        if d.get("esc", "none") != "none" or d.get("rc") == "0" or int(d.get("msg", "0")) == 0 or d.get("fu") != "1":
+            ctx.fail("recursion.bad-report[%s]" % k, "template recursion without an end must end in a non-zero status with a message and a usable transformer: " + (rep or "")[:300],
+                     {"mode": "xslt", "line": line})
 
     # sources / stylesheets named by system id or URL (file, directory, unreachable host, malformed URL) instead of a stream
     for u in ["nonexistent-file.xml", "/", ".", "http://localhost:1/x.xml", "ftp://x/y", "file:///nonexistent", "http://[bad", "bogus://x", "a b c",
